@@ -44,8 +44,8 @@ impl C04 {
         C04 {
             tier,
             seed,
-            n_streams: scaled(tier.pick(1_500, 80_000), scale),
-            n_files: scaled(tier.pick(500, 25_000), scale),
+            n_streams: scaled(tier.pick(15_000, 400_000), scale),
+            n_files: scaled(tier.pick(4_000, 100_000), scale),
         }
     }
 
